@@ -91,6 +91,7 @@ func (rc *rangeCtx) clip(iv *ival, t types.Type, what string) *ival {
 
 // eval computes the interval of v as seen at block `at` (dominating facts refine it).
 func (rc *rangeCtx) eval(v ssa.Value, at *ssa.BasicBlock) *ival {
+	rcx = rc
 	iv := rc.evalRaw(v)
 	if iv == nil {
 		return nil
@@ -98,31 +99,113 @@ func (rc *rangeCtx) eval(v ssa.Value, at *ssa.BasicBlock) *ival {
 	return refine(v, iv, at)
 }
 
+// sameImage: a and b are the same value, or value-preserving widenings of the same value.
+func sameImage(a, b ssa.Value) bool {
+	strip := func(v ssa.Value) ssa.Value {
+		for {
+			switch x := v.(type) {
+			case *ssa.ChangeType:
+				v = x.X
+				continue
+			case *ssa.Convert:
+				// only widening conversions between integer types preserve the value
+				lo1, hi1, ok1 := typeRange(x.X.Type())
+				lo2, hi2, ok2 := typeRange(x.Type())
+				if ok1 && ok2 && lo2.Cmp(lo1) <= 0 && hi2.Cmp(hi1) >= 0 {
+					v = x.X
+					continue
+				}
+			}
+			return v
+		}
+	}
+	a, b = strip(a), strip(b)
+	if a == b {
+		return true
+	}
+	// two loads of the same location
+	la, ok1 := a.(*ssa.UnOp)
+	lb, ok2 := b.(*ssa.UnOp)
+	if ok1 && ok2 && la.Op == token.MUL && lb.Op == token.MUL {
+		va, vb := valuePath(la), valuePath(lb)
+		if va.Root != nil && va.Root == vb.Root && va.Path == vb.Path && !strings.Contains(va.Path, "[*]") {
+			return true
+		}
+		pa, pb := deepPath(la), deepPath(lb)
+		if pa.Root != nil && pa.Root == pb.Root && pa.Path == pb.Path && !strings.Contains(pa.Path, "[*]") {
+			return true
+		}
+	}
+	return false
+}
+
+var rcx *rangeCtx
+
+func indexOfEdge(phi *ssa.Phi, e ssa.Value) int {
+	for i, x := range phi.Edges {
+		if x == e {
+			return i
+		}
+	}
+	return -1
+}
+
 func refine(v ssa.Value, iv *ival, at *ssa.BasicBlock) *ival {
 	if at == nil {
 		return iv
 	}
+	return refineByFacts(v, iv, cmpsAt(at))
+}
+
+func refineByFacts(v ssa.Value, iv *ival, cmps []Cmp) *ival {
+	return refineMatch(func(x ssa.Value) bool { return sameImage(x, v) }, iv, cmps)
+}
+
+// refineMatch refines iv by the comparisons whose one side satisfies match.
+func refineMatch(match func(ssa.Value) bool, iv *ival, cmps []Cmp) *ival {
 	out := &ival{lo: iv.lo, hi: iv.hi, wrapped: iv.wrapped}
-	for _, c := range cmpsAt(at) {
+	for _, c := range cmps {
 		if c.Y == nil {
 			continue
 		}
 		op := c.Op
 		var k *big.Int
-		if c.X == v {
-			if kv, ok := constBig(c.Y); ok {
-				k = kv
+		var other ssa.Value
+		if match(c.X) {
+			other = c.Y
+		} else if match(c.Y) {
+			other = c.X
+			op = swapOp(op)
+		} else {
+			continue
+		}
+		one := big.NewInt(1)
+		if kv, ok := constBig(other); ok {
+			k = kv
+		} else if rcx != nil {
+			// symbolic bound: v <= Y implies v <= hi(Y); v >= Y implies v >= lo(Y)
+			oiv := rcx.evalRaw(other)
+			if oiv == nil || oiv.wrapped != "" {
+				continue
 			}
-		} else if c.Y == v {
-			if kv, ok := constBig(c.X); ok {
-				k = kv
-				op = swapOp(op)
+			switch op {
+			case token.LSS:
+				out.hi = bmin(out.hi, new(big.Int).Sub(oiv.hi, one))
+			case token.LEQ, token.EQL:
+				out.hi = bmin(out.hi, oiv.hi)
+				if op == token.EQL {
+					out.lo = bmax(out.lo, oiv.lo)
+				}
+			case token.GTR:
+				out.lo = bmax(out.lo, new(big.Int).Add(oiv.lo, one))
+			case token.GEQ:
+				out.lo = bmax(out.lo, oiv.lo)
 			}
+			continue
 		}
 		if k == nil {
 			continue
 		}
-		one := big.NewInt(1)
 		switch op {
 		case token.LSS:
 			out.hi = bmin(out.hi, new(big.Int).Sub(k, one))
@@ -214,6 +297,11 @@ func (rc *rangeCtx) compute(v ssa.Value) *ival {
 			res = &ival{lo: new(big.Int).Add(a.lo, b.lo), hi: new(big.Int).Add(a.hi, b.hi), wrapped: w}
 		case token.SUB:
 			res = &ival{lo: new(big.Int).Sub(a.lo, b.hi), hi: new(big.Int).Sub(a.hi, b.lo), wrapped: w}
+			if tl, _, ok := typeRange(x.Type()); ok && tl.Sign() == 0 && res.lo.Sign() < 0 {
+				// an unsigned difference that wraps becomes huge: any later upper-bound guard rejects
+				// it, so it is sound to continue with the full range and no wrap mark
+				return rc.full(x.Type())
+			}
 		case token.MUL:
 			c := []*big.Int{new(big.Int).Mul(a.lo, b.lo), new(big.Int).Mul(a.lo, b.hi), new(big.Int).Mul(a.hi, b.lo), new(big.Int).Mul(a.hi, b.hi)}
 			lo, hi := c[0], c[0]
@@ -233,6 +321,10 @@ func (rc *rangeCtx) compute(v ssa.Value) *ival {
 		case token.QUO:
 			if b.lo.Sign() > 0 && a.lo.Sign() >= 0 {
 				return &ival{lo: new(big.Int).Quo(a.lo, b.hi), hi: new(big.Int).Quo(a.hi, b.lo), wrapped: w}
+			}
+			if b.lo.Sign() >= 0 && a.lo.Sign() >= 0 {
+				// x / y <= x for y >= 1 (y == 0 panics)
+				return &ival{lo: big.NewInt(0), hi: a.hi, wrapped: w}
 			}
 			return rc.full(x.Type())
 		case token.AND:
@@ -297,6 +389,17 @@ func (rc *rangeCtx) compute(v ssa.Value) *ival {
 				other = true
 				continue
 			}
+			// refine by what holds on the incoming edge
+			if ei := indexOfEdge(x, e); ei >= 0 && ei < len(x.Block().Preds) {
+				pred := x.Block().Preds[ei]
+				iv = refine(e, iv, pred)
+				if len(pred.Instrs) > 0 {
+					if iff, ok := pred.Instrs[len(pred.Instrs)-1].(*ssa.If); ok && pred.Succs[0] != pred.Succs[1] {
+						truth := pred.Succs[0] == x.Block()
+						iv = refineByFacts(e, iv, factCmps(Fact{iff.Cond, truth, iff}))
+					}
+				}
+			}
 			inits = append(inits, iv)
 		}
 		full := rc.full(x.Type())
@@ -322,6 +425,17 @@ func (rc *rangeCtx) compute(v ssa.Value) *ival {
 			}
 			full := rc.full(x.Type())
 			return &ival{lo: big.NewInt(0), hi: full.hi}
+		}
+		if c := isBuiltinCall(x, "cap"); c != nil {
+			full := rc.full(x.Type())
+			return &ival{lo: big.NewInt(0), hi: full.hi}
+		}
+		if f := x.Call.StaticCallee(); f != nil {
+			switch f.String() {
+			case "(*bytes.Buffer).Len", "(*bytes.Buffer).Cap", "(*bytes.Reader).Len", "(*strings.Reader).Len":
+				full := rc.full(x.Type())
+				return &ival{lo: big.NewInt(0), hi: full.hi}
+			}
 		}
 	case *ssa.Extract:
 		// range-loop key over an array / integer
